@@ -3,6 +3,8 @@
 import base64
 import binascii
 import datetime
+import decimal
+import math
 import re
 
 from .utils import parse_into_datetime
@@ -79,9 +81,17 @@ class FloatConstant(_Constant):
             self.value = float(value)
         except Exception:
             raise ValueError("must be a float.")
+        if not math.isfinite(self.value):
+            raise ValueError("must be a finite float.")
 
     def __str__(self):
-        return "%s" % self.value
+        # The pattern grammar has no exponent notation.
+        text = repr(self.value)
+        if "e" in text:
+            text = format(decimal.Decimal(text), "f")
+        if "." not in text:
+            text += ".0"
+        return text
 
 
 class BooleanConstant(_Constant):
